@@ -322,7 +322,7 @@ def worker(item):
 def explore(tier, seed, nproc):
     pal = seed % 3
     H = harness_specs(pal)
-    nets = [(k, H[k]) for k in ("chain", "merge", "twobytwo")]
+    nets = [(k, H[k]) for k in ("chain", "merge", "twobytwo", "tri_split")]
     kmax = 3 if tier == "quick" else 4
     items = []
     for name, spec in nets:
